@@ -30,7 +30,7 @@ from txtorcon.endpoints import TorClientEndpoint, _create_socks_endpoint
 PROPERTY = 'C18'
 
 ENTRIES = ['9050', '127.0.0.1:9051', 'unix:/s', '9052 IsolateDestAddr', '9053 IPv6Traffic PreferIPv6', 'unix:/t WorldWritable',
-           'auto IsolateDestAddr', '[::1]:9060 IsolateSOCKSAuth', '905', 'unix:"/p q/s" WorldWritable']
+           'auto IsolateDestAddr', '[::1]:9060 IsolateSOCKSAuth', '905', 'unix:"/p q/s" WorldWritable', '9054\tIsolateDestAddr']
 DEFAULT_OPTS = '9050 IsolateDestAddr IsolateDestPort'      # a built-in default that carries option words
 
 
@@ -203,6 +203,36 @@ def run_choose(kind, entries, requested, entry_point):
 OUTCOMES = ['refused', 'timeout', 'success', 'socks-error', 'lost-after-connect']
 
 
+def run_retry(entries, requested):
+    """TorConfig.create_socks_endpoint for a port Tor lacks; Tor refuses the SETCONF (the call must fail); the caller tries again
+    and Tor accepts: the port is still not configured, so it has to be asked for again - existing lines verbatim, the new one once"""
+    viol = []
+    with World() as w:
+        impl = CfgImpl(w, [('SocksPort', list(entries))])
+        sim = impl.sim
+        sim.override('SETCONF', (513, [('line', 'Unacceptable option value: rejected by the harness')]))
+        r1 = DRec(impl.cfg.create_socks_endpoint(w.reactor, requested))
+        sim.pump()
+        if len(r1.fires) != 1 or r1.kind != 'err':
+            viol.append(('rejected-setconf-not-reported', 'config_create', 'Tor refused the SETCONF; create_socks_endpoint -> %r' % (r1.summary()[:2],)))
+        base = len(sim.commands)
+        r2 = DRec(impl.cfg.create_socks_endpoint(w.reactor, requested))
+        sim.pump()
+        setconfs = [c for c in sim.commands[base:] if c.upper().startswith('SETCONF')]
+        if len(r2.fires) == 1 and r2.kind == 'ok' and requested not in sim.conf['SocksPort']:
+            viol.append(('endpoint-for-unconfigured-port', 'retry-after-rejected-setconf',
+                         'the first attempt to add %r was refused by Tor; the second returned an endpoint having sent %r; Tor has %r'
+                         % (requested, setconfs, sim.conf['SocksPort'])))
+        elif setconfs:
+            items = kvline.parse(setconfs[0].split(' ', 1)[1])
+            vals = [v for k, v in items]
+            if vals != list(entries) + [requested]:
+                viol.append(('existing-entries-not-relisted-verbatim', 'retry-after-rejected-setconf',
+                             'Tor has %r; the retry sent %r' % (list(entries), vals)))
+        obs = (r1.summary()[0], r2.summary()[0], tuple(setconfs))
+    return dict(viol=viol, obs=obs, log=['existing %r requested %r: rejected, then retried' % (entries, requested)])
+
+
 def run_guess(seq):
     """seq: outcome for the attempt on the first / second well-known port"""
     viol = []
@@ -278,7 +308,7 @@ def run_guess(seq):
 
 def tasks(tier, seed):
     cfgs = existing_configs(tier)
-    out = []
+    out = [('retry',)]
     per = 12
     for i in range(0, len(cfgs), per):
         out.append(('choose', i, i + per))
@@ -295,6 +325,12 @@ def rec_exec(acc, key, r, replay, cost):
 
 
 def run_task(param, acc):
+    if param[0] == 'retry':
+        for entries in ([], ['9050'], ['9052 IsolateDestAddr', 'unix:/s']):
+            for requested in ('9999', 'unix:/new', '9998 IsolateDestAddr'):
+                r = run_retry(entries, requested)
+                rec_exec(acc, ('retry', tuple(entries), requested), r, dict(fam='retry', entries=entries, requested=requested), cost=len(entries) + 2)
+        return
     if param[0] == 'guess':
         for n in (1, 2):
             for seq in itertools.product(OUTCOMES, repeat=n):
@@ -330,6 +366,8 @@ def run_task(param, acc):
 def replay(p):
     if p['fam'] == 'guess':
         r = run_guess(tuple(p['seq']))
+    elif p['fam'] == 'retry':
+        r = run_retry(p['entries'], p['requested'])
     else:
         r = run_choose(p['kind'], p['entries'], p['requested'], p['ep'])
     return dict(violations=[dict(signature='%s/%s' % (c, f), what=d) for c, f, d in r['viol']], log=r['log'])
